@@ -1,7 +1,7 @@
 (* C06 — property theorems only (proofs in Proofs/Wire.v). *)
 From Coq Require Import List NArith Arith Bool.
 Import ListNotations.
-From V Require Import Model.Bytes Model.Wire Gen.GenProtocol Proofs.Wire Proofs.WireSound.
+From V Require Import Model.Bytes Model.SockIO Model.Wire Model.WireIO Gen.GenProtocol Proofs.Wire Proofs.WireSound Proofs.WireIO.
 Local Open Scope N_scope.
 
 (* Any message the sender can build decodes to exactly its fields and payload, consuming
@@ -71,6 +71,27 @@ Theorem C06_accepted_reencodes_equivalent : forall c acc unz stream m n,
 Proof. exact reencode_equiv. Qed.
 Print Assumptions C06_accepted_reencodes_equivalent.
 
+(* "However the stream is fragmented": [recv_stub_io] is recv_stub with every connection.recv(n)
+   performed by C17's socket model (receive_data over an arbitrary script of partial deliveries,
+   retryable errors, MSG_WAITALL or not).  Whenever the socket reads succeed, the outcome - accepted
+   message or error, and the number of bytes consumed - is exactly that of reading the plain stream. *)
+Theorem C06_fragmentation_independent : forall c acc unz waitall script stream r n,
+  recv_stub_io c acc unz waitall script stream = Some (r, n) ->
+  recv_stub c acc unz stream = (r, n).
+Proof. exact recv_stub_fragmentation. Qed.
+Print Assumptions C06_fragmentation_independent.
+
+Theorem C06_decode_encode_over_socket : forall c m z bs rest acc unz waitall script r n,
+  NoDup (map fst (s_anns m)) ->
+  (forall cid, s_corr m = Some cid -> length cid = 16%nat) ->
+  accepts acc (s_type m) ->
+  (compresses c m = true -> unz = Some (s_payload m)) ->
+  encode c m z = Ok bs ->
+  recv_stub_io c acc unz waitall script (bs ++ rest) = Some (r, n) ->
+  r = Ok (received m) /\ n = Nlen bs.
+Proof. exact decode_encode_over_socket. Qed.
+Print Assumptions C06_decode_encode_over_socket.
+
 (* the header layout implemented by the model is the one generated from _header_format *)
 Theorem C06_header_layout :
   header_layout = [(0,4); (1,2); (1,1); (1,1); (1,2); (1,2); (1,4); (1,4); (0,16); (1,2); (1,2)]
@@ -96,3 +117,15 @@ Example C06_nonvacuous_sound :
   exists m, recv_stub {| max_size := 1000; compression := false |} None None stream = (Ok m, 62)
             /\ r_anns m = [([65;66;67;68], [1;2;3])] /\ r_data m = [5;6].
 Proof. vm_compute. split; [reflexivity|]. eexists. repeat split. Qed.
+
+(* non-vacuity: a message delivered one to three bytes at a time with interruptions is received whole *)
+Example C06_nonvacuous_fragmented :
+  let m := {| s_type := 4; s_flags := 0; s_seq := 9; s_ser := 1; s_payload := [1;2;3;4;5];
+              s_anns := [([65;66;67;68], [7])]; s_corr := None |} in
+  let c := {| max_size := 1000; compression := false |} in
+  let script := concat (repeat [Deliver 1; SockIO.Err (Some 4); Deliver 3; Deliver 2] 30) in
+  match encode c m [] with
+  | Ok bs => recv_stub_io c None None false script (bs ++ [42]) = Some (Ok (received m), Nlen bs)
+  | Err _ => False
+  end.
+Proof. vm_compute. reflexivity. Qed.
